@@ -150,6 +150,7 @@ Hypothesis H11 : forall n i, P (GPtr n i).
 Hypothesis H12 : forall n i, P (GFunc n i).
 Hypothesis H13 : forall n i, P (GChan n i).
 Hypothesis H14 : forall i l, Forall P l -> P (GStruct i l).
+Hypothesis H15 : forall n t u, P u -> P (GPtrTo n t u).
 
 Fixpoint gval_ind' (v : gval) : P v :=
   let fix go (l : list gval) : Forall P l :=
@@ -160,6 +161,7 @@ Fixpoint gval_ind' (v : gval) : P v :=
   | GSlice e n l => H8 e n l (go l) | GArray l => H9 l (go l) | GMap s n i => H10 s n i
   | GPtr n i => H11 n i | GFunc n i => H12 n i | GChan n i => H13 n i
   | GStruct i l => H14 i l (go l)
+  | GPtrTo n t u => H15 n t u (gval_ind' u)
   end.
 End GvalInd.
 
